@@ -211,7 +211,7 @@ def run(check):
       for sname in state:
         via = how.get(sname)
         stmt = entry_pts.get((via, sname)) or next((s for (v, nm), s in entry_pts.items() if nm == sname), None)
-        r_p.violate('position depends on %s' % sname, add, stmt, 'the ring position that add_node inserts depends on the mutable '
+        r_p.violate('position depends on %s' % sname, add, stmt, construct='ring position depends on %s' % sname, message='the ring position that add_node inserts depends on the mutable '
                     '`%s` (through `%s`): which of two colliding replicas keeps its position depends on the order in which '
                     'destinations joined, so after destinations leave and rejoin the ring differs from a freshly built one'
                     % (sname, short(stmt) if stmt is not None else via))
@@ -295,24 +295,57 @@ def run(check):
     seed_ok = dflt and isinstance(dflt[-1], ast.Constant) and dflt[-1].value == 0x811c9dc5
     prime_ok = any(isinstance(n, ast.Constant) and n.value == 0x01000193 for n in ast.walk(fnv[0].node))
     mod_ok = '2 ** 32' in t or '4294967296' in t or '0xffffffff' in t.lower()
-    order_ok = t.replace(' ', '').find('hval^') < t.replace(' ', '').find('hval*fnv_32_prime') if 'hval*fnv_32_prime' in t.replace(' ', '') else False
+    order_ok = False
+    for lp in [n for n in ast.walk(fnv[0].node) if isinstance(n, ast.For)]:
+      ops = []
+      for st in lp.body:
+        for x in ast.walk(st):
+          if isinstance(x, ast.BinOp) and isinstance(x.op, (ast.BitXor, ast.Mult)):
+            ops.append(type(x.op).__name__)
+      if ops[:1] == ['BitXor'] and 'Mult' in ops[1:]:
+        order_ok = True
     if seed_ok and prime_ok and mod_ok and order_ok:
       r_b.ok('FNV-1a: offset basis 0x811c9dc5, prime 0x01000193, xor then multiply, mod 2**32', fnv[0].loc())
     else:
       r_b.violate('FNV-1a constants', fnv[0], None, 'the pure-python fnv32a does not use the FNV-1a parameters (basis %s, prime %s, '
                   'mod 2**32 %s, xor-then-multiply %s)' % (seed_ok, prime_ok, mod_ok, order_ok), construct='fnv32a')
+  from ..rulelib import reaching_defs, value_assigned
+
+  def _resolve(g, node, e, depth=0):
+    """follow a local name to its single defining expression"""
+    while isinstance(e, ast.Name) and depth < 3:
+      rds = [d for d in reaching_defs(g, e.id, node) if d is not g.entry]
+      if len(rds) != 1:
+        return e
+      v = value_assigned(rds[0], e.id)
+      if not isinstance(v, ast.AST):
+        return e
+      e, node, depth = v, rds[0], depth + 1
+    return e
   for mname in ('get_node', 'get_nodes'):
     m = rc.methods.get(mname)
     if m is None:
       continue
-    t = unparse(m.node).replace(' ', '')
-    if 'bisect.bisect_left(self.ring,search_entry)%self.ring_len' in t and 'search_entry=(position,())' in t and \
-       'position=self.compute_ring_position(key)' in t:
-      r_b.ok('%s: lookup = bisect_left(ring, (hash(key), ())) mod len' % mname, m.loc())
+    g = cx.cfg(m)
+    okl = False
+    bis = None
+    for n in g.nodes:
+      for c in g.calls(n):
+        if (dotted(c.func) or '') == 'bisect.bisect_left' and len(c.args) == 2 and dotted(c.args[0]) == 'self.ring':
+          bis = c
+          ent = _resolve(g, n, c.args[1])
+          if isinstance(ent, ast.Tuple) and len(ent.elts) == 2 and isinstance(ent.elts[1], ast.Tuple) and not ent.elts[1].elts:
+            pos = _resolve(g, n, ent.elts[0])
+            if isinstance(pos, ast.Call) and (dotted(pos.func) or '') == 'self.compute_ring_position' and pos.args and \
+               isinstance(pos.args[0], ast.Name) and pos.args[0].id == m.params[1]:
+              par = getattr(c, '_parent', None)
+              if isinstance(par, ast.BinOp) and isinstance(par.op, ast.Mod) and dotted(par.right) == 'self.ring_len':
+                okl = True
+    if okl:
+      r_b.ok('%s: lookup = bisect_left(ring, (hash(key), ())) mod ring_len' % mname, m.loc(bis))
     else:
-      sub = [c for c in ast.walk(m.node) if isinstance(c, ast.Call) and (dotted(c.func) or '').startswith('bisect.')]
-      r_b.violate('%s lookup' % mname, m, sub[0] if sub else None, '%s does not look the key up with bisect_left(self.ring, '
-                  '(position, ())) %% ring_len' % mname, construct='%s lookup' % mname)
+      r_b.violate('%s lookup' % mname, m, bis, '%s does not look the key up with bisect_left(self.ring, '
+                  '(compute_ring_position(key), ())) %% self.ring_len' % mname, construct='%s lookup' % mname)
 
   # ------------------------------------------------------------------ dynamic membership
   r_d = check.rule('R-C06-dynamic', 2, 'a destination going down/up changes routing only through the router')
